@@ -197,7 +197,7 @@ Case(e) == LET t == TypeOf(e, G, F, NoLoc, FALSE) IN
    args |-> IF IsBad(t) THEN <<>> ELSE LET a == ArgsOf(e, G, F) IN [k \in DOMAIN a |-> [name |-> a[k].name, type |-> TypeStr(a[k].type)]],
    vc |-> IF IsBad(t) THEN "" ELSE VClass(e, GC, FD, {}),
    vals  |-> IF IsBad(t) \/ e.id = "FUNCDEF" THEN <<>> ELSE [i \in 1..Len(Interps) |-> Outcome(Eval(e, Interps[i], FD, NoVal), t)],
-   r0 |-> Render(e, FALSE), r1 |-> Render(e, TRUE),
+   r0 |-> Render(e, 0), r1 |-> Render(e, 1), r2 |-> Render(e, 2),
    kvals |-> IF IsBad(t) \/ e.id = "FUNCDEF" THEN <<>> ELSE [i \in 1..Len(Interps) |-> Outcome(EvalK(e, Interps[i], FD, NoVal), t)]]
 
 Init == /\ stage = 1
